@@ -5,6 +5,7 @@
 package main
 
 import (
+	"bytes"
 	"fmt"
 	"math/rand"
 	"sort"
@@ -70,6 +71,10 @@ func build(c *wk.Ctx, i int, r *rand.Rand) (*workload, error) {
 		nwriters = 3
 	}
 	nops := 200 + r.Intn(c.Pick(700, 1300))
+	bigKeys := i%5 == 1
+	if bigKeys {
+		nops = 60 + r.Intn(120)
+	}
 	syncPct := []int{5, 30, 100}[r.Intn(3)]
 	shared := &hist.History{}
 	w.h = shared
@@ -80,6 +85,20 @@ func build(c *wk.Ctx, i int, r *rand.Rand) (*workload, error) {
 		kg := model.NewKeyGen(rr, 40+rr.Intn(120))
 		for j := range kg.Pool {
 			kg.Pool[j] = append([]byte{byte('A' + wi), '/'}, kg.Pool[j]...)
+		}
+		if bigKeys {
+			// keys of a few KiB: a manifest record (which carries the smallest and largest key of every
+			// table it adds) then regularly spans a 32 KiB journal block, i.e. is written in two pieces
+			seen := map[string]bool{}
+			var pool [][]byte
+			for _, k := range kg.Pool {
+				k = append(append(append([]byte(nil), k...), 1), bytes.Repeat([]byte{'z'}, 1500+rr.Intn(6000))...)
+				if !seen[string(k)] {
+					seen[string(k)] = true
+					pool = append(pool, k)
+				}
+			}
+			kg.Pool = pool
 		}
 		w.keys = append(w.keys, kg.Pool...)
 		cl := wl.NewClient(db, w.stor, rr, kg, w.os.O, uint32(wi+1))
@@ -123,7 +142,7 @@ func build(c *wk.Ctx, i int, r *rand.Rand) (*workload, error) {
 		leveldb.VerifBarrier(db)
 		db.Close()
 	}
-	w.desc = map[string]interface{}{"options": w.os.Desc, "client_ops": nops, "writers": nwriters, "sync_pct": syncPct, "batches": len(w.h.B)}
+	w.desc = map[string]interface{}{"options": w.os.Desc, "client_ops": nops, "writers": nwriters, "sync_pct": syncPct, "batches": len(w.h.B), "big_keys": bigKeys}
 	return w, nil
 }
 
@@ -142,6 +161,9 @@ func runWorkload(c *wk.Ctx, i int) {
 	im := w.stor.NewImager()
 	n := im.Len()
 	c.Count("workloads", 1)
+	if w.desc["big_keys"] == true {
+		c.Count("workloads_with_keys_of_several_KiB", 1)
+	}
 	c.Count(fmt.Sprintf("workloads_with_%v_writers", w.desc["writers"]), 1)
 	c.Count("storage_ops_in_logs", n)
 	// crash points
@@ -176,6 +198,25 @@ func runWorkload(c *wk.Ctx, i int) {
 				}
 				return "end"
 			}()
+			ks = append(ks, k)
+		}
+	}
+	// plus the boundaries of manifest writes: a manifest record that spans a journal block is written in
+	// two pieces, and a crash may keep the first without the second
+	var mw []int64
+	for k := w.opened; k < n; k++ {
+		if op := im.Op(k); op.Kind == vstor.OpWrite && op.Fd.Type == storage.TypeManifest {
+			mw = append(mw, k+1)
+		}
+	}
+	c.Count("manifest_writes_in_logs", int64(len(mw)))
+	if mb := c.Pick(40, 1<<30); len(mw) > mb {
+		r.Shuffle(len(mw), func(a, b int) { mw[a], mw[b] = mw[b], mw[a] })
+		mw = mw[:mb]
+	}
+	for _, k := range mw {
+		if _, ok := points[k]; !ok {
+			points[k] = "after:write:manifest"
 			ks = append(ks, k)
 		}
 	}
